@@ -398,7 +398,7 @@ func genPCase(r *Rng) *PCase {
 		}
 	}
 	if r.Chance(8) {
-		c.Allow = []string{r.Pick([]string{"../ext", "@ARENA@/p/ext/file", "../src-evil", "../outside.txt"})}
+		c.Allow = []string{r.Pick([]string{"../ext", "@ARENA@/p/ext/file", "../src-evil", "../outside.txt", "", "."})}  // "" and ".": entries that denote the root itself (seed C05-e)
 	}
 	return c
 }
